@@ -24,23 +24,49 @@
 EXTENDS Def
 
 \* control modes: "top" (loop top of the running activation), "ret" (it returns v), "raise" (it returns an error), "done"
-Cfg(m, a, e, v, d, k, st, tops) == [m |-> m, a |-> a, e |-> e, v |-> v, d |-> d, k |-> k, st |-> st, tops |-> tops]
+NoDbg == [on |-> FALSE, skip |-> FALSE, o1 |-> FALSE, o2 |-> FALSE, script |-> <<>>, pos |-> 0, log |-> <<>>]
+Cfg(m, a, e, v, d, k, st, tops) == [m |-> m, a |-> a, e |-> e, v |-> v, d |-> d, k |-> k, st |-> st, tops |-> tops, dbg |-> NoDbg]
+
+(***************************************************************************)
+(* The stepper (C18).  lisp.Stepper is consulted at the ENTRY of an        *)
+(* activation unless `skip` is set; its answer drives three process-wide   *)
+(* flags exactly as mal.go does:                                           *)
+(*   Next : skip := TRUE now, skip := FALSE when this activation exits     *)
+(*   In   : skip := FALSE, outing1 := FALSE                                *)
+(*   Out  : skip := TRUE, outing1 := TRUE                                  *)
+(*   the `do` helper, if outing1 holds when it is ENTERED, sets            *)
+(*          skip := TRUE, outing1 := FALSE, outing2 := TRUE when it returns*)
+(*   an activation entered while outing2 holds resets skip and outing2     *)
+(*          when it exits                                                  *)
+(* and while a stepper is installed the loop bottom RECURSES (a new        *)
+(* activation) instead of looping; the catch handler's last form still     *)
+(* `continue`s in place.  dbg.log records every consultation: <<form,      *)
+(* depth, outing1, outing2, answer>>.                                      *)
+(***************************************************************************)
+FlagOut(c) == [c EXCEPT !.dbg.skip = TRUE, !.dbg.o1 = FALSE, !.dbg.o2 = TRUE]
+\* the do helper was entered with outing1 set: its deferred flag update runs when it returns
+HelperDone(c, pend) == IF pend THEN FlagOut(c) ELSE c
+Pend(c) == c.dbg.on /\ c.dbg.o1
 \* v for "raise": [k |-> "thr"|"err", v |-> node]
 
 Fr(t, x) == [t |-> t] @@ x
 Push(c, fr) == Append(c.k, fr @@ [d |-> c.d, ce |-> c.e])    \* the suspended activation keeps its defers and its scope
 
 \* start a sub-evaluation (a NEW activation) of form a in scope e; the current activation waits in frame fr
-Sub(c, fr, a, e) == [c EXCEPT !.m = "top", !.a = a, !.e = e, !.d = <<>>, !.k = Push(c, fr)]
+Sub(c, fr, a, e) == [c EXCEPT !.m = "enter", !.a = a, !.e = e, !.d = <<>>, !.k = Push(c, fr)]
 \* continue in the SAME activation (tail position)
-TailTo(c, a, e) == [c EXCEPT !.m = "top", !.a = a, !.e = e]
+\* tail position reached through the loop BOTTOM: loops, or (stepper installed) recurses into a new activation
+TailTo(c, a, e) == IF c.dbg.on THEN [c EXCEPT !.m = "enter", !.a = a, !.e = e, !.d = <<>>, !.k = Push(c, Fr("ktail", <<>>))]
+                   ELSE [c EXCEPT !.m = "top", !.a = a, !.e = e]
+\* the catch handler's last form: `continue`, always the same activation
+ContinueTo(c, a, e) == [c EXCEPT !.m = "top", !.a = a, !.e = e]
 Ret(c, v) == [c EXCEPT !.m = "ret", !.v = v]
 Raise(c, kind, v) == [c EXCEPT !.m = "raise", !.v = [k |-> kind, v |-> v]]
 RaiseErr(c, class) == Raise(c, "err", ErrV(class))
 
 Unspec(c) == [c EXCEPT !.m = "done", !.v = [k |-> "unspec", v |-> NilV]]
 
-RECURSIVE Dispatch(_, _), DoForms(_, _, _), LetBody(_, _, _), ExpandLoop(_, _, _), AfterTryBody(_, _, _, _, _),
+RECURSIVE Dispatch(_, _), DoForms(_, _, _), DoFormsV(_, _, _, _), LetBody(_, _, _), ExpandLoop(_, _, _), AfterTryBody(_, _, _, _, _),
           BuiltinCall(_, _, _), ApplyFromBuiltin(_, _, _, _)
 
 IsSpecial(a) == a.t = "list" /\ Len(a.xs) >= 1 /\ a.xs[1].t = "sym" /\ a.xs[1].s \in SpecialForms
@@ -98,16 +124,18 @@ Dispatch(c, a) ==
       [] h = "fn" -> IF n < 2 \/ ~ParamsOk(a.xs[2]) THEN Unspec(c) ELSE Ret(c, FnV(e, a.xs[2], SubSeq(a.xs, 3, n)))
       [] h = "try" -> LET tp == TryParts(a) IN
                         IF ~tp.ok THEN Unspec(c)
-                        ELSE IF tp.body = <<>> THEN AfterTryBody(c, tp, e, "val", NilV)
-                        ELSE Sub(c, Fr("trybody", [tp |-> tp, rest |-> Tail(tp.body), e |-> e]), tp.body[1], e)
+                        ELSE IF tp.body = <<>> THEN AfterTryBody(HelperDone(c, Pend(c)), tp, e, "val", NilV)
+                        ELSE Sub(c, Fr("trybody", [tp |-> tp, rest |-> Tail(tp.body), e |-> e, pend |-> Pend(c)]), tp.body[1], e)
   ELSE \* application: evaluate head and operands left to right
     Sub(c, Fr("args", [done |-> <<>>, rest |-> Tail(a.xs), e |-> e, kind |-> "apply", form |-> a]), a.xs[1], e)
 
 \* (do f1 .. fn): all but the last are sub-evaluations, the last is in tail position
-DoForms(c, forms, e) ==
-  IF forms = <<>> THEN TailTo(c, NilV, e)          \* the helper returns nil, which is then evaluated as a form
-  ELSE IF Len(forms) = 1 THEN TailTo(c, forms[1], e)
-  ELSE Sub(c, Fr("donl", [rest |-> Tail(forms), e |-> e]), forms[1], e)
+DoFormsV(c, forms, e, bottom) ==
+  LET go(cc, a) == IF bottom THEN TailTo(cc, a, e) ELSE ContinueTo(cc, a, e) IN
+  IF forms = <<>> THEN go(HelperDone(c, Pend(c)), NilV)          \* the helper returns nil, which is then evaluated as a form
+  ELSE IF Len(forms) = 1 THEN go(HelperDone(c, Pend(c)), forms[1])
+  ELSE Sub(c, Fr("donl", [rest |-> Tail(forms), e |-> e, pend |-> Pend(c), bottom |-> bottom]), forms[1], e)
+DoForms(c, forms, e) == DoFormsV(c, forms, e, TRUE)
 LetBody(c, form, le) == DoForms(c, SubSeq(form.xs, 3, Len(form.xs)), le)
 
 \* the macro-expansion loop at the head of every iteration (and the macroexpand special form)
@@ -118,11 +146,11 @@ ExpandLoop(c, a, purpose) ==
 
 \* the try body has finished with outcome (kind, v): handler, or out (the deferred finally is registered)
 AfterTryBody(c, tp, e, kind, v) ==
-  LET c1 == IF tp.hasF THEN [c EXCEPT !.d = Append(@, [fin |-> tp.fin, e |-> e])] ELSE c IN
+  LET c1 == IF tp.hasF THEN [c EXCEPT !.d = Append(@, [t |-> "fin", fin |-> tp.fin, e |-> e])] ELSE c IN
   IF kind = "val" THEN Ret(c1, v)
   ELSE IF ~tp.hasC THEN Raise(c1, kind, v)
   ELSE LET st1 == NewScope(c1.st, e, (tp.csym.s :> v)) he == LastScope(st1) c2 == [c1 EXCEPT !.st = st1] IN
-         DoForms(c2, tp.handler, he)
+         DoFormsV(c2, tp.handler, he, FALSE)
 
 LoopTop(c) ==
   LET c1 == [c EXCEPT !.tops = Append(@, <<c.a, Len(c.k) + 1>>), !.st.fuel = @ - 1] IN
@@ -168,7 +196,11 @@ Deliver(c) ==
              IF fr.i + 2 > Len(fr.b) THEN LetBody(c1, fr.form, fr.le)
              ELSE Sub(c1, [fr EXCEPT !.i = @ + 2], fr.b[fr.i + 3], fr.le)
       [] fr.t = "donl" ->
-           IF ~ok THEN Raise(c0, v.k, v.v) ELSE DoForms(c0, fr.rest, fr.e)
+           IF ~ok THEN Raise(HelperDone(c0, fr.pend), v.k, v.v)
+           ELSE IF Len(fr.rest) = 1
+                THEN (IF fr.bottom THEN TailTo(HelperDone(c0, fr.pend), fr.rest[1], fr.e) ELSE ContinueTo(HelperDone(c0, fr.pend), fr.rest[1], fr.e))
+           ELSE Sub(c0, [fr EXCEPT !.rest = Tail(@)], fr.rest[1], fr.e)
+      [] fr.t = "ktail" -> IF ok THEN Ret(c0, v) ELSE Raise(c0, v.k, v.v)
       [] fr.t = "if" ->
            IF ~ok THEN Raise(c0, v.k, v.v)
            ELSE IF Truthy(v) THEN TailTo(c0, fr.then, fr.e)
@@ -177,12 +209,12 @@ Deliver(c) ==
            IF ~ok THEN Raise(c0, v.k, v.v)
            ELSE ExpandLoop(c0, v, fr.purpose)          \* same loop iteration: no new loop top
       [] fr.t = "trybody" ->
-           IF ~ok THEN AfterTryBody(c0, fr.tp, fr.e, v.k, v.v)
-           ELSE IF fr.rest = <<>> THEN AfterTryBody(c0, fr.tp, fr.e, "val", v)
+           IF ~ok THEN AfterTryBody(HelperDone(c0, fr.pend), fr.tp, fr.e, v.k, v.v)
+           ELSE IF fr.rest = <<>> THEN AfterTryBody(HelperDone(c0, fr.pend), fr.tp, fr.e, "val", v)
            ELSE Sub(c0, [fr EXCEPT !.rest = Tail(@)], fr.rest[1], fr.e)
       [] fr.t = "finally" ->                             \* one form of a deferred finally body finished; its outcome is discarded
            IF fr.rest # <<>> /\ ok THEN Sub(c0, [fr EXCEPT !.rest = Tail(@)], fr.rest[1], fr.e)
-           ELSE [c0 EXCEPT !.m = fr.pm, !.v = fr.pv]    \* resume the pending outcome (then the remaining defers)
+           ELSE [HelperDone(c0, fr.pend) EXCEPT !.m = fr.pm, !.v = fr.pv]    \* resume the pending outcome (then the remaining defers)
       [] fr.t = "bmap" ->
            IF ~ok THEN Raise(c0, v.k, v.v)
            ELSE LET done == Append(fr.done, v) IN
@@ -228,11 +260,29 @@ Exit(c) ==
   IF c.d = <<>> THEN Deliver(c)
   ELSE LET df == c.d[Len(c.d)]
            c1 == [c EXCEPT !.d = SubSeq(@, 1, Len(@) - 1)] IN
-    IF df.fin = <<>> THEN c1
+    IF df.t = "nextreset" THEN [c1 EXCEPT !.dbg.skip = FALSE]
+    ELSE IF df.t = "o2reset" THEN [c1 EXCEPT !.dbg.skip = FALSE, !.dbg.o2 = FALSE]
+    ELSE IF df.fin = <<>> THEN HelperDone(c1, Pend(c1))
     ELSE \* the finally forms run as sub-evaluations of this (still live) activation; outcome pending
-      Sub(c1, Fr("finally", [rest |-> Tail(df.fin), e |-> df.e, pm |-> c.m, pv |-> c.v]), df.fin[1], df.e)
+      Sub(c1, Fr("finally", [rest |-> Tail(df.fin), e |-> df.e, pm |-> c.m, pv |-> c.v, pend |-> Pend(c1)]), df.fin[1], df.e)
 
-Step(c) == CASE c.m = "top" -> LoopTop(c)
+\* entry of an activation: the stepper section of EVAL
+Enter(c) ==
+  IF ~c.dbg.on THEN [c EXCEPT !.m = "top"]
+  ELSE LET consult == ~c.dbg.skip
+           cmd == IF consult THEN c.dbg.script[(c.dbg.pos % Len(c.dbg.script)) + 1] ELSE "none"
+           c1 == IF consult
+                 THEN [c EXCEPT !.dbg.pos = @ + 1,
+                                !.dbg.log = Append(@, <<c.a, Len(c.k) + 1, c.dbg.o1, c.dbg.o2, cmd>>),
+                                !.dbg.skip = IF cmd \in {"next", "out"} THEN TRUE ELSE IF cmd = "in" THEN FALSE ELSE @,
+                                !.dbg.o1 = IF cmd = "out" THEN TRUE ELSE IF cmd = "in" THEN FALSE ELSE @,
+                                !.d = IF cmd = "next" THEN Append(@, [t |-> "nextreset"]) ELSE @]
+                 ELSE c
+           c2 == IF c1.dbg.o2 THEN [c1 EXCEPT !.d = Append(@, [t |-> "o2reset"])] ELSE c1
+       IN [c2 EXCEPT !.m = "top"]
+
+Step(c) == CASE c.m = "enter" -> Enter(c)
+             [] c.m = "top" -> LoopTop(c)
              [] c.m \in {"ret", "raise"} -> Exit(c)
              [] OTHER -> c
 
@@ -242,8 +292,15 @@ RunCfg(c) == IF c.m = "done" THEN c ELSE RunCfg(Step(c))
 \* run a program (top-level forms in order) from state st0; returns the final configuration of the last form
 RECURSIVE RunForms(_, _, _, _)
 RunForms(forms, i, st, tops) ==
-  LET c == RunCfg(Cfg("top", forms[i], 1, NilV, <<>>, <<>>, st, tops)) IN
+  LET c == RunCfg(Cfg("enter", forms[i], 1, NilV, <<>>, <<>>, st, tops)) IN
     IF i = Len(forms) \/ c.v.k # "val" THEN c ELSE RunForms(forms, i + 1, c.st, c.tops)
+
+\* the same with a stepper installed that answers with the cyclic command script
+RECURSIVE RunFormsStepped(_, _, _, _)
+RunFormsStepped(forms, i, st, dbg) ==
+  LET c == RunCfg([Cfg("enter", forms[i], 1, NilV, <<>>, <<>>, st, <<>>) EXCEPT !.dbg = dbg]) IN
+    IF i = Len(forms) \/ c.v.k # "val" THEN c ELSE RunFormsStepped(forms, i + 1, c.st, c.dbg)
+Dbg(script) == [NoDbg EXCEPT !.on = TRUE, !.script = script]
 
 MachineOutcome(c) == [k |-> c.v.k,
                       v |-> IF c.v.k \in {"val", "thr", "err"} THEN Abstract(c.v.v, c.st) ELSE NilV,
